@@ -367,18 +367,163 @@ theorem bump_align_leak_witness :
     acquireBlock vmDefault true 32704 64 8 0x20000000000 = .ok 0x20000000038 ⟨0x20000007ff8, 0x20000008000⟩ := by
   decide
 
+theorem legal_align_lt {vm : VMConsts} {ka km kx align offset : Nat}
+    (L : LegalAlign vm ka km kx align offset vm.minAlign) :
+    align < 2^63 ∧ 0 < vm.minAlign ∧ vm.minAlign ≤ align ∧ vm.minAlign ∣ align := by
+  obtain ⟨hmin, hmax, halign, ⟨hka1, hka2, hkx⟩, hoff, hoffw, hknown⟩ := L
+  refine ⟨?_, ?_, ?_, ?_⟩
+  · rw [halign]; exact Nat.pow_lt_pow_right (by omega) (by omega)
+  · rw [hmin]; exact Nat.two_pow_pos _
+  · rw [hmin, halign]; exact Nat.pow_le_pow_right (by omega) hka1
+  · rw [hmin, halign]; exact Nat.pow_dvd_pow 2 hka1
+
+/-- **`get_maximum_aligned_size(size, align)` = `size + align - MIN_ALIGNMENT`** for every legal
+alignment and `MIN_ALIGNMENT`-aligned size (both profiles; no assertion fires). -/
+theorem maxAlignedSize_val (vm : VMConsts) (debug : Bool) (ka km kx size align offset : Nat)
+    (L : LegalAlign vm ka km kx align offset vm.minAlign)
+    (hsz : size + align < 2^64) (hszk : vm.minAlign ∣ size) :
+    maxAlignedSize vm debug size align vm.minAlign = some (size + align - vm.minAlign) := by
+  obtain ⟨hlt, hpos, hle, hdvd⟩ := legal_align_lt L
+  have L' := L
+  obtain ⟨hmin, hmax, halign, ⟨hka1, hka2, hkx⟩, hoff, hoffw, hknown⟩ := L
+  by_cases htriv : align ≤ vm.minAlign ∨ vm.maxAlign ≤ vm.minAlign
+  · have heq := (alignAllocation_min vm debug ka km kx 0 align offset L' htriv).2
+    have e : size + align - vm.minAlign = size := by omega
+    rw [e]
+    have hmask : (size == (size &&& wnot (vm.minAlign - 1))) = true := by
+      rw [hmin, wnot_pow_mask km (by omega), and_not_mask size km (by omega) (by omega)]
+      have : size % 2^km = 0 := by rw [← hmin]; exact Nat.mod_eq_zero_of_dvd hszk
+      simp [this]
+    have hc : (decide (vm.maxAlign ≤ vm.minAlign) || decide (align ≤ vm.minAlign)) = true := by
+      rcases htriv with h | h <;> simp [h]
+    unfold maxAlignedSize
+    rw [hmask, hc]
+    simp
+  · have hgt : vm.minAlign < align := by omega
+    have hmm : vm.minAlign < vm.maxAlign := by omega
+    obtain ⟨_, m, _, hm, hme, _⟩ :=
+      maxAlignedSize_bounds vm debug ka km kx km 0 align offset vm.minAlign size L' hmin hgt hmm
+        (by omega) (Nat.dvd_zero _) (by rw [hmin]; exact hoff) hsz hszk
+    rw [hm, hme]
+
 /-- … and the repair: a block sized for `get_maximum_aligned_size(size, align)` (as
 `LargeObjectAllocator` and `mi_bin` do) always fits. -/
 theorem fresh_block_with_slack_fits (vm : VMConsts) (debug : Bool) (ka km kx : Nat)
     (start size align offset m bs : Nat) (H : FreshLegal vm ka km kx start size align offset)
-    (_hm : maxAlignedSize vm debug size align vm.minAlign = some m) (hmm : size + align ≤ m + vm.minAlign)
-    (hbs : m ≤ bs) (hb2 : start + bs + align < 2^63) :
+    (hszk : vm.minAlign ∣ size)
+    (hm : maxAlignedSize vm debug size align vm.minAlign = some m)
+    (hbs : m ≤ bs) (hb2 : start + bs < 2^63) :
     ∃ res b', bumpAllocAligned vm debug ⟨start, start + bs⟩ size align offset = .ok res b' ∧
       (res + offset) % align = 0 ∧ start ≤ res ∧ res + size ≤ start + bs := by
+  have hsm := H.small
+  obtain ⟨_, hpos, hle, _⟩ := legal_align_lt H.legal
+  rw [maxAlignedSize_val vm debug ka km kx size align offset H.legal (by omega) hszk] at hm
+  cases hm
   have HB : BumpLegal vm ka km kx ⟨start, start + bs⟩ size align offset :=
-    ⟨H.legal, H.startAligned, by have := H.small; simp only; omega, by have := H.small; omega⟩
+    ⟨H.legal, H.startAligned, by simp only; omega, by omega⟩
   obtain ⟨res, b', h, h1, h2, h3, _⟩ :=
     fresh_buffer_fits vm debug ka km kx start bs size align offset HB (by omega)
   exact ⟨res, b', h, h1, h2, h3⟩
+
+/-! ### Immix: the same bump pointer on holes and clean blocks -/
+
+/-- **Immix hole** (`alloc_slow_hot` → `acquire_recyclable_lines` → `alloc`): a request whose
+worst-case aligned size is at most one line (`get_maximum_aligned_size(size, align) ≤ Line::BYTES`,
+the branch condition in `ImmixAllocator::alloc`) fits EVERY non-empty hole `[s, e)`; this is the
+`debug_assert!` in `acquire_recyclable_lines`. -/
+theorem immix_hole_fits (vm : VMConsts) (debug : Bool) (ka km kx : Nat)
+    (base lineBytes s e size align offset : Nat) (hse : s < e)
+    (L : LegalAlign vm ka km kx align offset vm.minAlign)
+    (hbase : vm.minAlign ∣ base) (hline : vm.minAlign ∣ lineBytes)
+    (hsmall : base + e * lineBytes + align < 2^63) (hsz : size < 2^63)
+    (hfit : size + align ≤ lineBytes + vm.minAlign) :
+    ∃ res b', bumpAllocAligned vm debug (holeBump base lineBytes s e) size align offset = .ok res b' ∧
+      (res + offset) % align = 0 ∧ base + s * lineBytes ≤ res ∧ res + size ≤ base + e * lineBytes ∧
+      b' = ⟨res + size, base + e * lineBytes⟩ := by
+  have hcap : base + e * lineBytes = base + s * lineBytes + (e - s) * lineBytes := by
+    have : s * lineBytes + (e - s) * lineBytes = e * lineBytes := by
+      rw [← Nat.add_mul]; congr 1; omega
+    omega
+  have hone : lineBytes ≤ (e - s) * lineBytes := Nat.le_mul_of_pos_left _ (by omega)
+  have hsle : s * lineBytes ≤ e * lineBytes := Nat.mul_le_mul_right _ (by omega)
+  unfold holeBump
+  rw [hcap]
+  have HB : BumpLegal vm ka km kx ⟨base + s * lineBytes, base + s * lineBytes + (e - s) * lineBytes⟩
+      size align offset :=
+    ⟨L, Nat.dvd_add hbase (Nat.dvd_mul_left_of_dvd hline s), by simp only; omega, hsz⟩
+  exact fresh_buffer_fits vm debug ka km kx _ _ size align offset HB (by omega)
+
+/-- **Immix clean block** (`acquire_clean_block` → `alloc` / `overflow_alloc`): every request up to
+`MAX_IMMIX_OBJECT_SIZE = Block::BYTES / 2` fits a fresh block of `blockBytes ≥ 2 * align` bytes. -/
+theorem immix_clean_block_fits (vm : VMConsts) (debug : Bool) (ka km kx : Nat)
+    (start blockBytes size align offset : Nat)
+    (L : LegalAlign vm ka km kx align offset vm.minAlign) (hst : vm.minAlign ∣ start)
+    (hsmall : start + blockBytes + align < 2^63)
+    (hsz : 2 * size ≤ blockBytes) (hal : 2 * align ≤ blockBytes) :
+    ∃ res b', bumpAllocAligned vm debug (bumpRefill start blockBytes) size align offset = .ok res b' ∧
+      (res + offset) % align = 0 ∧ start ≤ res ∧ res + size ≤ start + blockBytes ∧
+      b' = ⟨res + size, start + blockBytes⟩ := by
+  unfold bumpRefill
+  have HB : BumpLegal vm ka km kx ⟨start, start + blockBytes⟩ size align offset :=
+    ⟨L, hst, by simp only; omega, by omega⟩
+  exact fresh_buffer_fits vm debug ka km kx _ _ size align offset HB (by omega)
+
+/-! ## (2) large objects: `LargeObjectAllocator::alloc_slow_once` + `alloc` -/
+
+/-- a legal LOS request and the cell `allocate_pages` returned for it -/
+structure LosLegal (vm : VMConsts) (ka km kx : Nat) (size align offset cell : Nat) : Prop where
+  legal : LegalAlign vm ka km kx align offset vm.minAlign
+  sizeAligned : vm.minAlign ∣ size
+  cellAligned : vm.minAlign ∣ cell
+  cellSmall : cell + align < 2^63
+  sizeSmall : size + align + 4095 < 2^64
+
+/-- **C03, large-object allocator (`los_alloc_within_pages`)**: for every power-of-two
+`MIN_ALIGNMENT ≤ align ≤ MAX_ALIGNMENT`, `offset` and `size` multiples of `MIN_ALIGNMENT`, the call
+never panics, reserves `pages = ⌈(size + align - MIN_ALIGNMENT) / 4096⌉` pages and returns the least
+admissible address `res` in the cell; `(res + offset) % align = 0`, `cell ≤ res`, and
+`[res, res + size)` lies inside the `pages` pages of the cell. -/
+theorem los_alloc_within_pages (vm : VMConsts) (debug : Bool) (ka km kx size align offset cell : Nat)
+    (H : LosLegal vm ka km kx size align offset cell) :
+    ∃ pages res, losAllocFull vm debug size align offset cell = some (pages, res) ∧
+      pages = (size + align - vm.minAlign + 4095) / 4096 ∧
+      (res + offset) % align = 0 ∧ cell ≤ res ∧ res + size ≤ cell + pages * 4096 ∧
+      res = cell + padSpec cell align offset := by
+  obtain ⟨L, hsk, hck, hcs, hss⟩ := H
+  obtain ⟨_, hpos, hle, _⟩ := legal_align_lt L
+  have hm := maxAlignedSize_val vm debug ka km kx size align offset L (by omega) hsk
+  obtain ⟨r, hr, hge, hpad, hmod, _, hreq⟩ :=
+    alignAllocation_good vm debug ka km kx cell align offset L hcs hck
+  have hpg := pagesUp_eq_ceilDiv (size + align - vm.minAlign) (by omega)
+  refine ⟨_, r, ?_, rfl, hmod, hge, by omega, hreq⟩
+  simp only [losAllocFull, losPages, hm, losResult, hr, hpg]
+
+/-- **the seeded regression, whole family**: with `pages = bytes_to_pages_up(size)` (no alignment
+slack) EVERY legal request whose size is a whole number of pages and whose offset is not a multiple
+of the alignment runs past the end of its pages (LOS cells are page aligned). -/
+theorem los_no_slack_overflows (vm : VMConsts) (debug : Bool) (ka km kx size align offset cell : Nat)
+    (H : LosLegal vm ka km kx size align offset cell) (hka : ka ≤ 12)
+    (hcell : 4096 ∣ cell) (hsize : 4096 ∣ size) (hoff : ¬ align ∣ offset) :
+    ∃ pages res, losAllocNoSlack vm debug size align offset cell = some (pages, res) ∧
+      pages * 4096 = size ∧ cell + pages * 4096 < res + size := by
+  obtain ⟨L, hsk, hck, hcs, hss⟩ := H
+  obtain ⟨r, hr, hge, hpad, hmod, _, hreq⟩ :=
+    alignAllocation_good vm debug ka km kx cell align offset L hcs hck
+  have hpg := pagesUp_eq_ceilDiv size (by omega)
+  have hal : align ∣ cell := by
+    rw [L.halign]
+    have : (2:Nat)^ka ∣ 2^12 := Nat.pow_dvd_pow 2 hka
+    have e : (2:Nat)^12 = 4096 := by decide
+    rw [e] at this
+    exact Nat.dvd_trans this hcell
+  have hne : r ≠ cell := by
+    intro h
+    apply hoff
+    rw [h] at hmod
+    exact (Nat.dvd_add_iff_right hal).2 (Nat.dvd_of_mod_eq_zero hmod)
+  have hsz : (size + 4095) / 4096 * 4096 = size := by
+    have := Nat.mod_eq_zero_of_dvd hsize; omega
+  refine ⟨(size + 4095) / 4096, r, ?_, hsz, by omega⟩
+  simp only [losAllocNoSlack, losPagesNoSlack, losResult, hr, hpg]
 
 end Mmtk.AllocArith
